@@ -9,6 +9,8 @@ def R(entry):
 GROUPS = [
     dict(name="dict_add_word", harness=HR, entry="r_dict_add_word", allow_no_body=NB, unwind=8, replay=R("r_dict_add_word"),
          bounded="dictionary of <= 3 existing words (4 slots, no reallocation), pronunciation <= 3 phones; hash table as an executable map stub at the touched keys"),
+    dict(name="dict_word2basestr_contract", harness="harness/C16_basestr.c", enforce="dict_word2basestr", replace=["ssw_strlen"], loop_contracts=True, loops=["word2basestr.scan"], min_loop_steps=1,
+         min_postconditions=6, allow_no_body=["*"]),
     dict(name="dict_word2basestr", harness=HR, entry="r_word2basestr", allow_no_body=NB, unwind=8, replay=R("r_word2basestr"),
          bounded="strings of length <= 5 with symbolic content"),
 ]
@@ -33,12 +35,13 @@ ASSUMPTIONS = [
     "the word hash table is an executable map stub observed at the keys one call touches (its map behaviour is what C20 checks on the real table)",
     "bin_mdef_ciphone_id, dict2pid_add_word are stubs in the parser harness; search re-initialisation is not covered",
     "table growth (ckd_realloc keeping contents) is cut from the bounded harness",
+    "dict_word2basestr: strlen is routed to ssw_strlen with an ASSUMED contract (returns the ghost length at which the word is NUL-terminated); words <= 2000 bytes",
 ]
 HAND_LEMMAS = []
 NOT_COVERED = ["dict2pid_add_word is NOT under contract: decided only by the bounded native differential run dict2pid_add_enum (random histories over small phone alphabets, compared with dict2pid_build from scratch; silence / filler phones inside pronunciations excluded)", "use of the new word in grammars / alignment", "dict_read_s3file", "unbounded word / phone-string lengths"]
-LEVEL = "model_checking"   # no unbounded contract proof in this property: CBMC bounded runs with unwinding assertions + a native differential run
+LEVEL = "model_checking"   # one unbounded contract proof (dict_word2basestr); the clauses on dict_add_word / dict2pid_add_word are bounded: CBMC bounded runs with unwinding assertions + a native differential run
 CLAIM = dict(
     level="model_checking",
-    text="dict_add_word is checked by CBMC on the real function over every dictionary of <= 3 existing words with symbolic alt/base links, for plain, alternate and empty spellings, present/absent base word and duplicate: success gives the next id, the given pronunciation and the head-of-chain link, every existing entry is unchanged (only the base word's alt link may change), and a rejected addition changes nothing. decoder_add_word's phone parser is checked on every phone string of <= 3 characters: every phone-id write stays inside its buffer, unknown phones, empty words and empty pronunciations are rejected. Bounded (labelled so). The cross-word triphone tables that make an added word usable by the search (dict2pid_add_word) are compared, for 1 600 additions in random dictionary histories over small phone alphabets of the real en-us model, with a dict2pid built from scratch over the same words (bounded stand-in, not proof).",
+    text="dict_word2basestr (which decides whether a spelling is a numbered alternate and of which base word) is PROVED with a loop contract for words of any length <= 2000 bytes: a trailing (...) is cut at its last opening parenthesis after position 0, every other character keeps its value, and a refusal (-1) leaves the word untouched and is justified. dict_add_word is checked by CBMC on the real function over every dictionary of <= 3 existing words with symbolic alt/base links, for plain, alternate and empty spellings, present/absent base word and duplicate: success gives the next id, the given pronunciation and the head-of-chain link, every existing entry is unchanged (only the base word's alt link may change), and a rejected addition changes nothing. decoder_add_word's phone parser is checked on every phone string of <= 3 characters: every phone-id write stays inside its buffer, unknown phones, empty words and empty pronunciations are rejected. Bounded (labelled so). The cross-word triphone tables that make an added word usable by the search (dict2pid_add_word) are compared, for 1 600 additions in random dictionary histories over small phone alphabets of the real en-us model, with a dict2pid built from scratch over the same words (bounded stand-in, not proof).",
     note="bounded harnesses (CBMC unwinding with unwinding assertions), hash table as a map stub; dict2pid_add_word by a bounded native differential run against dict2pid_build (not proof); search re-initialisation not covered; three genuine defects found here were fixed in /repo (known_findings.txt)",
     technique="CBMC bounded model checking of the real functions with unwinding assertions over harness-built dictionaries (bounded stand-in; a DFCC contract version ran out of memory); counterexamples replayed natively under ASan; bounded native differential run for dict2pid_add_word")
